@@ -117,3 +117,84 @@ def build(reg):
                                 'needs_upstream ==> (choices > old(choices) and not isnone(self.choice))', 'choices >= old(choices)'])})]
     reg.specfuns['dec'] = SpecFun('dec', ['int'], 'str', define=lambda n: z3.If(n >= 0, z3.IntToStr(n), z3.Concat(z3.StringVal('-'), z3.IntToStr(-n))))
     return T
+
+
+def bounded_checks(reg, tier, seed):
+    """Bounded stand-in / counterexample finder on the real ReverseProxy.handle_request with fake
+    plugins and a recording upstream: route tables x upstream URL shapes x Host-rewrite option x
+    pre-states (fresh connection, or state left by an earlier forwarded request)."""
+    import itertools
+    from unittest import mock
+    import proxy.http.server.reverse as rv
+    from proxy.http.parser import HttpParser
+    from proxy.http.url import Url
+    bad = []
+    n = 0
+    urls = [b'http://up.example/base', b'http://up.example:8080/base', b'http://up.example', b'https://sec.example/x',
+            b'https://sec.example:8443']
+    for url, rewrite, stale, match in itertools.product(urls, (False, True), (False, True), (False, True)):
+        calls = {'connect': [], 'wrap': 0, 'queued': []}
+
+        class FakeUp(object):
+            def __init__(self, host, port):
+                self.addr = (host, port)
+                self.closed = True
+
+            def connect(self):
+                calls['connect'].append(self.addr)
+                self.closed = False
+
+            def wrap(self, *a, **k):
+                calls['wrap'] += 1
+
+            def queue(self, mv):
+                calls['queued'].append(bytes(mv))
+
+        class Plugin(object):
+            def before_routing(self, request):
+                return request
+
+            def routes(self):
+                return [(r'/api/(.*)$', [url])]
+        rp = rv.ReverseProxy.__new__(rv.ReverseProxy)
+        rp.flags = mock.MagicMock()
+        rp.flags.rewrite_host_header = rewrite
+        rp.flags.ca_file = None
+        rp.client = mock.MagicMock()
+        rp.plugins = [Plugin()]
+        rp.upstream = None
+        rp.choice = Url.from_bytes(b'http://stale.example:1234/old') if stale else None
+        rp._upstream_proxy_pass = None
+        path = b'/api/thing' if match else b'/other'
+        req = HttpParser.request(b'POST ' + path + b' HTTP/1.1\r\nHost: front.example\r\nX-K: v\r\nContent-Length: 3\r\n\r\nabc')
+        case = {'upstream_url': url.decode(), 'rewrite_host': rewrite, 'state_left_by_earlier_request': stale, 'path': path.decode()}
+        import proxy.core.base.tcp_upstream as tu
+        with mock.patch.object(tu, 'TcpServerConnection', FakeUp):
+            try:
+                rp.handle_request(req)
+            except Exception as e:      # noqa
+                bad.append(dict(case, what='raised %r' % (e,)))
+                continue
+        n += 1
+        u = Url.from_bytes(url)
+        if not match:
+            if calls['connect'] or calls['queued']:
+                bad.append(dict(case, what='no route matches but an outbound connection was made to %r' % (calls['connect'],)))
+            continue
+        want = (u.hostname.decode(), u.port or (80 if u.scheme == b'http' else 443))
+        if calls['connect'] != [want]:
+            bad.append(dict(case, what='connected to %r, expected %r' % (calls['connect'], want)))
+            continue
+        if (calls['wrap'] == 1) != (u.scheme == b'https'):
+            bad.append(dict(case, what='TLS wrap count %d for scheme %s' % (calls['wrap'], u.scheme.decode())))
+            continue
+        if len(calls['queued']) != 1:
+            bad.append(dict(case, what='%d requests forwarded' % len(calls['queued'])))
+            continue
+        fwd = HttpParser.request(calls['queued'][0])
+        host_want = (u.hostname + (b':%d' % u.port if u.port else b'')) if rewrite else b'front.example'
+        if fwd.method != b'POST' or fwd.body != b'abc' or fwd.header(b'x-k') != b'v' or \
+                (fwd.path or b'/') != (u.remainder or b'/') or fwd.header(b'host') != host_want:
+            bad.append(dict(case, what='forwarded request differs', forwarded=calls['queued'][0][:120].decode('latin-1')))
+    return [{'name': 'native sweep of ReverseProxy.handle_request (routes x URL shapes x Host rewrite x earlier-request state)',
+             'bounded': True, 'bound': '5 upstream URL shapes x 2 x 2 x 2', 'cases': n, 'violations': bad[:3]}]
